@@ -237,6 +237,13 @@ def gen_cases(tier, seed):
         mol = pick(spin)
         add("sdmx-%02d-%s-%s" % (r, mol, spin), "sdmx", 5.0 if spin == "rks" else 8.0, mol=mol,
             basis=pick_basis(), spin=spin, npts=60 if q else 200, ncyc=int(rng.integers(1, 6)))
+    # generally contracted shells (nctr > 1: cc-pVDZ; def2 / Pople sets are segmented): added after a seeded change that
+    # read the (nctr, nprim) coefficient table of the fast l = 1 kernel transposed went unnoticed
+    for r in range(1 if q else 3):
+        spin = "rks" if r % 2 == 0 else "uks"
+        mol = ["HF", "NH2", "H2O"][r % 3] if spin == "rks" or r % 3 == 1 else "NH2"
+        add("sdmx-gc-%02d-%s-%s" % (r, mol, spin), "sdmx", 5.0 if spin == "rks" else 8.0, mol=mol, basis="cc-pvdz", spin=spin,
+            npts=40 if q else 120, ncyc=int(rng.integers(1, 6)))
     # the H^1d family (SDMXFullSettings only) in cases of its own
     for r in range(1 if q else 3):
         spin = "rks" if r % 2 == 0 else "uks"
